@@ -199,7 +199,8 @@ def judge(c, verdict, rib_after, drops_discard):
         if d:
             return (f'C08:discard-changed-the-rest:{tag}', '; '.join(d)[:600])
         # the rest is kept: the routes reach Adj-RIB-In
-        missing = [k for k in [x[0][:5] for x in exp['ann']] if k not in rib_after]
+        want_rib = c02.expected_rib({}, exp2)  # announces stored first, then the withdrawn routes removed
+        missing = [k for k in want_rib if k not in rib_after]
         if missing:
             return (f'C08:discard-drops-whole-update:{tag}', f'announced on the API but not stored in Adj-RIB-In: {missing[:2]}')
         return None
